@@ -260,6 +260,21 @@ def _records_value(node_ast: ast.AST, aliases: set[str]) -> bool:
             v = n.value
             if (isinstance(v, ast.Call) and ast.unparse(v) in ("self.current()", "self.advance()")) or (isinstance(v, ast.Name) and v.id in aliases):
                 return True  # advance() returns the token it has just consumed
+        # the consumed token itself kept in a list whose elements' .value is read later in the function (collect first, pick
+        # the comment texts afterwards)
+        if isinstance(n, ast.Call) and isinstance(n.func, ast.Attribute) and n.func.attr == "append" and isinstance(n.func.value, ast.Name) and n.args and isinstance(n.args[0], ast.Call) and ast.unparse(n.args[0]) in ("self.advance()", "self.current()"):
+            lst = n.func.value.id
+            fn = n
+            while fn is not None and not isinstance(fn, (ast.FunctionDef, ast.AsyncFunctionDef)):
+                fn = getattr(fn, "_parent", None)
+            if fn is not None:
+                for c in ast.walk(fn):
+                    if isinstance(c, (ast.ListComp, ast.GeneratorExp, ast.SetComp)):
+                        for g in c.generators:
+                            if isinstance(g.iter, ast.Name) and g.iter.id == lst and isinstance(g.target, ast.Name) and any(isinstance(x, ast.Attribute) and x.attr == "value" and isinstance(x.value, ast.Name) and x.value.id == g.target.id for x in ast.walk(c.elt)):
+                                return True
+                    if isinstance(c, ast.For) and isinstance(c.iter, ast.Name) and c.iter.id == lst and isinstance(c.target, ast.Name) and any(isinstance(x, ast.Attribute) and x.attr == "value" and isinstance(x.value, ast.Name) and x.value.id == c.target.id for b in c.body for x in ast.walk(b)):
+                        return True
     return False
 
 
